@@ -179,3 +179,108 @@ theorem getRandVarsS_length (n : Nat) (exclude : List Char) (s : Stream) (vs : L
 
 end Gen
 end Mathy
+
+namespace Mathy
+namespace Gen
+
+/-- a template's power, if present, is a valid literal -/
+def TemplOk (t : Template) : Prop := PowOk t.2
+
+theorem adorn_ok (pc : Rat) : ∀ (vs : List Char) (s : Stream), ∀ t ∈ (adorn pc vs s).1, TemplOk t := by
+  intro vs
+  induction vs with
+  | nil => intro s t h; simp [adorn] at h
+  | cons v vs ih =>
+    intro s t h
+    simp only [adorn, List.mem_cons] at h
+    rcases h with rfl | h
+    · exact maybePower_ok _ _
+    · exact ih _ _ h
+
+theorem adorn_length (pc : Rat) : ∀ (vs : List Char) (s : Stream), (adorn pc vs s).1.length = vs.length := by
+  intro vs
+  induction vs with
+  | nil => intro s; rfl
+  | cons v vs ih => intro s; simp [adorn, ih]
+
+theorem noiseTemplates_ok (pc : Rat) : ∀ (n : Nat) (vars : List Char) (s : Stream),
+    ∀ t ∈ (noiseTemplates pc n vars s).1.1, TemplOk t := by
+  intro n
+  induction n with
+  | zero => intro vars s t h; simp [noiseTemplates] at h
+  | succ n ih =>
+    intro vars s t h
+    unfold noiseTemplates at h
+    cases hv : vars.getLast? with
+    | none => simp [hv] at h
+    | some v =>
+      simp only [hv] at h
+      rcases List.mem_cons.1 h with rfl | h'
+      · exact maybePower_ok _ _
+      · exact ih _ _ _ h'
+
+theorem swapAtG_length {α : Type} (l : List α) (i j : Nat) : (swapAtG l i j).length = l.length := by
+  unfold swapAtG
+  split <;> simp
+
+theorem swapAtG_mem {α : Type} (l : List α) (i j : Nat) (x : α) (h : x ∈ swapAtG l i j) : x ∈ l := by
+  unfold swapAtG at h
+  split at h
+  · rename_i a b ha hb
+    have h1 := List.mem_or_eq_of_mem_set h
+    rcases h1 with h1 | rfl
+    · have h2 := List.mem_or_eq_of_mem_set h1
+      rcases h2 with h2 | rfl
+      · exact h2
+      · exact List.mem_of_getElem? hb
+    · exact List.mem_of_getElem? ha
+  · exact h
+
+theorem shuffleFromG_spec {α : Type} : ∀ (i : Nat) (l : List α) (s : Stream),
+    (shuffleFromG i l s).1.length = l.length ∧ ∀ x ∈ (shuffleFromG i l s).1, x ∈ l := by
+  intro i
+  induction i with
+  | zero => intro l s; exact ⟨rfl, fun x h => h⟩
+  | succ i ih =>
+    intro l s
+    simp only [shuffleFromG]
+    obtain ⟨h1, h2⟩ := ih (swapAtG l (i + 1) (draw (i + 2) s).1) (draw (i + 2) s).2
+    exact ⟨by rw [h1, swapAtG_length], fun x hx => swapAtG_mem _ _ _ _ (h2 x hx)⟩
+
+theorem simplifyTail_spec (spec : OpSpec) (optionalVar : Bool) (ovp : Rat) : ∀ (ts : List Template) (s : Stream),
+    (∀ t ∈ ts, TemplOk t) →
+    (simplifyTail spec optionalVar ovp ts s).1.length = ts.length ∧
+    ∀ q ∈ (simplifyTail spec optionalVar ovp ts s).1, q.2.ok = true := by
+  intro ts
+  induction ts with
+  | nil => intro s _; simp [simplifyTail]
+  | cons t ts ih =>
+    intro s ht
+    obtain ⟨v, p⟩ := t
+    have hp : PowOk p := ht (v, p) (by simp)
+    have hts : ∀ t ∈ ts, TemplOk t := fun t h => ht t (by simp [h])
+    simp only [simplifyTail]
+    generalize (if optionalVar = true then randBool ovp s else (true, s)) = K
+    obtain ⟨keep, s1⟩ := K
+    cases keep with
+    | true =>
+      simp only [if_true]
+      obtain ⟨h1, h2⟩ := ih (getOp spec (maybeNumber 80 s1).2).2 hts
+      refine ⟨by simp [h1], ?_⟩
+      intro q hq
+      simp only [List.mem_cons] at hq
+      rcases hq with rfl | hq
+      · exact term_ok _ _ _ (maybeNumber_ok _ _) hp
+      · exact h2 q hq
+    | false =>
+      simp only [Bool.false_eq_true, if_false]
+      obtain ⟨h1, h2⟩ := ih (getOp spec (randNumber s1).2).2 hts
+      refine ⟨by simp [h1], ?_⟩
+      intro q hq
+      simp only [List.mem_cons] at hq
+      rcases hq with rfl | hq
+      · simpa [PItem.ok] using randNumber_ok s1
+      · exact h2 q hq
+
+end Gen
+end Mathy
